@@ -82,7 +82,40 @@ func init() {
 	}
 	reg("errors.New", "returns a non-nil error", nonNilErr)
 	reg("fmt.Errorf", "returns a non-nil error", nonNilErr)
-	reg("fmt.Sprintf", "returns some string; no effects", func(c *callCtx) bool { c.freshResults("sprintf"); return true })
+	reg("fmt.Sprintf", "returns some string; no effects; for up to 4 arguments that are all strings the result is a fixed (uninterpreted) function of the format and the argument values", func(c *callCtx) bool {
+		c.freshResults("sprintf")
+		x := c.x
+		// the variadic idiom: new [k]any; stores; slice
+		sv, ok := c.argVals[1].(*ssa.Slice)
+		if !ok || sv.Low != nil || sv.High != nil {
+			return true
+		}
+		al, ok := sv.X.(*ssa.Alloc)
+		if !ok {
+			return true
+		}
+		arr, ok := deref(al.Type()).Underlying().(*types.Array)
+		if !ok || arr.Len() < 1 || arr.Len() > 4 {
+			return true
+		}
+		h := x.heapElem(arr.Elem())
+		ref := app("s.arr", c.args[1].S)
+		strTag := intLit(int64(x.ss.tagOf(types.Typ[types.String])))
+		var elems, conds []string
+		for i := int64(0); i < arr.Len(); i++ {
+			e := app("select", app("select", x.get(c.st, h).S, ref), intLit(i))
+			elems = append(elems, e)
+			conds = append(conds, mkEq(app("i.tag", e), strTag))
+		}
+		f := fmt.Sprintf("uf_sprintf_%d", arr.Len())
+		sorts := []string{SStr}
+		for range elems {
+			sorts = append(sorts, SIface)
+		}
+		x.vc.declFun(f, sorts, SStr)
+		c.n.assume(mkImp(mkAnd(conds...), mkEq(c.res[0].S, app(f, append([]string{c.args[0].S}, elems...)...))))
+		return true
+	})
 	reg("strings.Join", "returns some string; no effects", func(c *callCtx) bool { c.freshResults("join"); return true })
 	reg("fmt.Sprint", "returns some string; no effects", func(c *callCtx) bool { c.freshResults("sprint"); return true })
 	reg("fmt.Fprintf", "no effects on program state", noop)
